@@ -790,6 +790,18 @@ func (e *Engine) verifyFuncMode(fn *ssa.Function, ct *Contract, sweep bool, prop
 	}
 	// calls("<target>"): number of calls of <target> made so far by this activation (a private counter)
 	x.callCount = map[string]string{}
+	x.accWant = map[string]accSpec{}
+	for _, txt := range ct.allClauseTexts() {
+		for _, m := range allokRe.FindAllStringSubmatch(txt, -1) {
+			if _, ok := x.accWant[m[1]]; !ok {
+				comp := "L_allok_" + sanitize(m[1])
+				e.so.addComp(comp, "Bool")
+				i, _ := strconv.Atoi(m[2])
+				x.accWant[m[1]] = accSpec{idx: i, comp: comp}
+				st0.m[comp] = x.define("allok0", "Bool", "true")
+			}
+		}
+	}
 	x.resultWant = map[string]bool{}
 	x.callResults = map[string]capturedCall{}
 	for _, txt := range ct.allClauseTexts() {
